@@ -12,6 +12,8 @@ for r in "$@"; do
     rnd=$(python3 -c "import json;print(json.load(open('$m')).get('round'))")
     prop=$(python3 -c "import json;print(json.load(open('$m'))['property'])")
     [ "$rnd" = "$r" ] || continue
+    # PROPS="C15 C17": only the seeds of these properties
+    if [ -n "$PROPS" ] && ! echo " $PROPS " | grep -q " $prop "; then continue; fi
     git -C $wt checkout -q -- . ; git -C $wt clean -fdq
     if ! git -C $wt apply ${VERIF_HOME:-/verif}/$d/patch.diff 2>/dev/null; then echo "$name: PATCH-DOES-NOT-APPLY" > $out/$name.log; continue; fi
     VERIF_REPO=$wt ./check $prop --tier quick 2>&1 | grep -E "VIOLATION|KNOWN|^\[" | head -4 > $out/$name.log
